@@ -311,6 +311,15 @@ def search(ctx, boost=1, focus=()):
             nfr, npk = int(rng.integers(1, 4)), 2 ** 19 // ((2 * c) ** 2 * 8) + int(rng.integers(1, 30))
             ctx.count("integration_many_peaks")
         centers = np.stack([rng.integers(-2 * c, shape[0] + 2 * c, (nfr, npk)), rng.integers(-2 * c, shape[1] + 2 * c, (nfr, npk))], axis=-1)
+        if k >= 2:
+            # windows that share exactly one row / column with the frame, and the first positions that share none (both ends of
+            # both axes); the other coordinate anywhere within reach
+            ax_ = int(rng.integers(2))
+            edge = [-c, -c - 1, shape[ax_] - 1 + c, shape[ax_] + c, -c + 1, shape[ax_] - 2 + c]
+            for f_ in range(nfr):
+                j_ = int(rng.integers(npk))
+                centers[f_, j_, ax_] = edge[(k + f_) % len(edge)]
+                centers[f_, j_, 1 - ax_] = int(rng.integers(0, shape[1 - ax_]))
         q = {"seed": int(rng.integers(1 << 30)), "pattern": pat, "shape": shape, "nframes": nfr, "centers": centers.tolist(),
              "partitions": partitions_of(rng, nfr), "dtype": dtype, "asym": k % 2 == 1 and k >= 2}
         ctx.oracle_case("integration", q, run_case("integration", q), nontrivial=nfr > 1)
